@@ -43,6 +43,9 @@ def make_command(key, n):
         "st16": lambda: gg.QueryStatus(A.GearShort(a)),
         "cfg": lambda: gg.SetMaxLevel(A.GearShort(a)),
         "dtr": lambda: gg.DTR0(n % 256),
+        # ENABLE DEVICE TYPE sent by the application itself (a command like any other: device type 0)
+        "edt6": lambda: gg.EnableDeviceType(6),
+        "edt1": lambda: gg.EnableDeviceType(1),
         "qdt6": lambda: led.QueryGearType(A.GearShort(a)),
         "cfgdt6": lambda: led.SelectDimmingCurve(A.GearShort(a)),
         "qdt1": lambda: emergency.QueryBatteryCharge(A.GearShort(a)),
@@ -178,7 +181,15 @@ class Run:
             # would the device be back before the reconnect attempts run out?
             self.returned_in_time = (lim is None) or (ar is not None and ar < lim * iv)
         while self.time_triggers and self.time_triggers[0][0] <= now + 1e-12:
-            self.gw.apply(self.time_triggers.pop(0)[1])
+            act = self.time_triggers.pop(0)[1]
+            if act == "connect":
+                # the application asks for the connection again (after the driver reported 'failed')
+                try:
+                    self.driver.connect()
+                except Exception:      # noqa: shows in what follows
+                    pass
+            else:
+                self.gw.apply(act)
         if self.sc.get("observe_after_cmd") and not getattr(self, "_obs_anchored", False):
             # observed traffic timed relative to the moment the n-th DALI command went out
             if self.gw.ncmd >= self.sc["observe_after_cmd"]:
